@@ -14,7 +14,7 @@ the record-level expiry sweep defers, stage 1 has no such rule). It is semantic 
 form is `leaderTicksFrom role ops` (the role at a tick = the last `setLeader` before it, else the initial role): `leaderTicks_iff`.
 
 So: `RunOK (DB.init …) ops ↔ FrameFree ops ∧ leaderTicksFrom true ops` (`runOK_init_iff`), and `sim_run` / `C01_mutex_transfers` hold under
-purely syntactic premises (`sim_run_frameFree'`, `C01_mutex_transfers_frameFree'`).
+purely syntactic premises (`sim_run_frameFree_syn`, `C01_mutex_transfers_frameFree_syn`).
 -/
 namespace Slock.SimP
 open Slock Slock.Sim
@@ -126,7 +126,7 @@ theorem sim_run_frameFree (now aofTime : Nat) (ops : List Engine2.Op) (hf : Fram
   sim_run now aofTime ops (runOK_of_frameFree hf hl) hu
 
 /-- … with all premises syntactic -/
-theorem sim_run_frameFree' (now aofTime : Nat) (ops : List Engine2.Op) (hf : FrameFree ops) (hl : leaderTicksFrom true ops = true)
+theorem sim_run_frameFree_syn (now aofTime : Nat) (ops : List Engine2.Op) (hf : FrameFree ops) (hl : leaderTicksFrom true ops = true)
     (hu : ∀ x, (issued2 ops).count x ≤ 1) :
     ∃ ops1 : List C01.Op, ops1.length = ops.length ∧
       Equiv (Engine2.abs (Engine2.run (Engine2.DB.init now aofTime) ops)) (C01.run (Engine.DB.init now) ops1) :=
@@ -140,7 +140,7 @@ theorem C01_mutex_transfers_frameFree (now aofTime : Nat) (ops : List Engine2.Op
   C01_mutex_transfers now aofTime ops (runOK_of_frameFree hf hl) hid k hu
 
 /-- … with all premises syntactic -/
-theorem C01_mutex_transfers_frameFree' (now aofTime : Nat) (ops : List Engine2.Op) (hf : FrameFree ops)
+theorem C01_mutex_transfers_frameFree_syn (now aofTime : Nat) (ops : List Engine2.Op) (hf : FrameFree ops)
     (hl : leaderTicksFrom true ops = true) (hid : ∀ x, (issued2 ops).count x ≤ 1) (k : Nat)
     (hu : ∀ c d, Engine2.Op.lock c d ∈ ops → c.key = k → c.count = 0) :
     ((Engine2.run (Engine2.DB.init now aofTime) ops).getKey k).holders.length ≤ 1 :=
@@ -155,12 +155,12 @@ theorem frameFree_cell_none (now aofTime : Nat) (ops : List Engine2.Op) (hf : Fr
 
 /-! ### the premises are satisfiable: a grant, two queued requests, role flips, a tick that fires a timeout, a release that wakes a waiter -/
 
-def fH : Engine.Cmd := { req := 1, conn := 1, flag := 0, lockId := 1, key := 7, tflag := 0, timeout := 0, eflag := 0, expried := 50, count := 0, rcount := 0 }
-def fW : Engine.Cmd := { fH with req := 2, lockId := 2, timeout := 1 }
-def fV : Engine.Cmd := { fH with req := 3, lockId := 3, timeout := 30 }
-def fU : Engine.Cmd := { fH with req := 4 }
+def ffH : Engine.Cmd := { req := 1, conn := 1, flag := 0, lockId := 1, key := 7, tflag := 0, timeout := 0, eflag := 0, expried := 50, count := 0, rcount := 0 }
+def ffW : Engine.Cmd := { ffH with req := 2, lockId := 2, timeout := 1 }
+def ffV : Engine.Cmd := { ffH with req := 3, lockId := 3, timeout := 30 }
+def ffU : Engine.Cmd := { ffH with req := 4 }
 def demoF : List Engine2.Op :=
-  [.lock fH none, .lock fW none, .lock fV none, .setLeader false, .setLeader true, .tick, .tick, .unlock fU none]
+  [.lock ffH none, .lock ffW none, .lock ffV none, .setLeader false, .setLeader true, .tick, .tick, .unlock ffU none]
 
 example : FrameFree demoF := by decide
 example : leaderTicksFrom true demoF = true := by decide
@@ -169,20 +169,20 @@ example : ∀ x, (issued2 demoF).count x ≤ 1 := List.nodup_iff_count.mp (by de
 example : RunOK (Engine2.DB.init 100 0) demoF := (runOK_init_iff 100 0 demoF).mpr ⟨by decide, by decide⟩
 
 /-- the first LOCK is granted (0), the other two get no reply yet (queued) -/
-example : (Engine2.step (Engine2.DB.init 100 0) (.lock fH none)).2.map (·.r.result) = [0] := by decide
-example : (Engine2.step (Engine2.run (Engine2.DB.init 100 0) (demoF.take 1)) (.lock fW none)).2 = [] := by decide
-example : (Engine2.step (Engine2.run (Engine2.DB.init 100 0) (demoF.take 2)) (.lock fV none)).2 = [] := by decide
+example : (Engine2.step (Engine2.DB.init 100 0) (.lock ffH none)).2.map (·.r.result) = [0] := by decide
+example : (Engine2.step (Engine2.run (Engine2.DB.init 100 0) (demoF.take 1)) (.lock ffW none)).2 = [] := by decide
+example : (Engine2.step (Engine2.run (Engine2.DB.init 100 0) (demoF.take 2)) (.lock ffV none)).2 = [] := by decide
 example : ((Engine2.run (Engine2.DB.init 100 0) (demoF.take 3)).getKey 7).waiters.length = 2 := by decide
 /-- the second tick answers the first queued request with TIMEOUT (8) -/
 example : (Engine2.step (Engine2.run (Engine2.DB.init 100 0) (demoF.take 6)) .tick).2.map (·.r.result) = [8] := by decide
 /-- the release answers the UNLOCK (0) and grants the remaining queued request (0), which then holds the lock -/
-example : (Engine2.step (Engine2.run (Engine2.DB.init 100 0) (demoF.take 7)) (.unlock fU none)).2.map (fun r => (r.r.req, r.r.result)) = [(4, 0), (3, 0)] := by
+example : (Engine2.step (Engine2.run (Engine2.DB.init 100 0) (demoF.take 7)) (.unlock ffU none)).2.map (fun r => (r.r.req, r.r.result)) = [(4, 0), (3, 0)] := by
   decide
 example : ((Engine2.run (Engine2.DB.init 100 0) demoF).getKey 7).holders.map (·.cmd.lockId) = [3] := by decide
 
 /-- a tick off-leader is rejected by the syntactic role condition -/
 example : leaderTicksFrom true [.setLeader false, .tick] = false := by decide
 /-- a LOCK with a value frame is rejected by `FrameFree` -/
-example : ¬ FrameFree [.lock fH (some [])] := by decide
+example : ¬ FrameFree [.lock ffH (some [])] := by decide
 
 end Slock.SimP
